@@ -308,9 +308,12 @@ class AbsEval(ConstEval):
     def call(self, e, env, mod):
         ftxt = ast.unparse(e.func)
         # calls through values: table[key](x), (f or g)(x), a local holding a function
-        if not isinstance(e.func, (ast.Name, ast.Attribute)) or (isinstance(e.func, ast.Name) and e.func.id in env and not isinstance(env[e.func.id], Opaque)):
+        if ftxt.split(".")[-1] == "partial" and e.args and not e.keywords and (not isinstance(e.func, ast.Name) or e.func.id not in env or isinstance(env[e.func.id], Opaque)):
+            vals_ = self.eval_args(e, env, mod)
+            return ("partial", vals_[0], tuple(vals_[1:]))
+        if not isinstance(e.func, (ast.Name, ast.Attribute)) or (isinstance(e.func, ast.Name) and e.func.id in env and (not isinstance(env[e.func.id], Opaque) or env[e.func.id].what == "lambda")):
             f = self.eval(e.func, env, mod)
-            if isinstance(f, FuncRef) or (isinstance(f, Opaque) and f.what == "lambda") or (isinstance(f, tuple) and f and f[0] in ("boundfunc", "getter")) or f in (float, int, str, bool, len, abs, bytes):
+            if isinstance(f, FuncRef) or (isinstance(f, Opaque) and f.what == "lambda") or (isinstance(f, tuple) and f and f[0] in ("boundfunc", "getter", "partial")) or f in (float, int, str, bool, len, abs, bytes):
                 if (f.mod, f.node.name) in self.func_hooks if isinstance(f, FuncRef) else False:
                     return self.call_func(f, self.eval_args(e, env, mod), {k.arg: self.eval(k.value, env, mod) for k in e.keywords if k.arg})
                 return self.apply_value(f, self.eval_args(e, env, mod), mod)
@@ -804,7 +807,11 @@ class AbsEval(ConstEval):
         if isinstance(f, Opaque) and f.what == "lambda":
             lam = f.node
             params = [a.arg for a in lam.args.args]
-            return self.eval(lam.body, dict(zip(params, args)), f.mod or mod)
+            loc = dict(getattr(f, "env", None) or {})
+            loc.update(zip(params, args))
+            return self.eval(lam.body, loc, f.mod or mod)
+        if isinstance(f, tuple) and len(f) == 3 and f[0] == "partial":
+            return self.apply_value(f[1], list(f[2]) + list(args), mod)
         if isinstance(f, tuple) and f and f[0] == "boundfunc":
             return self.call_func(FuncRef(f[2].mod, f[2].node), [f[1]] + list(args))
         if isinstance(f, tuple) and len(f) == 3 and f[0] == "getter" and len(args) == 1:
